@@ -444,7 +444,7 @@ impl Property for C08 {
         ]
     }
     fn families(&self, tier: Tier) -> Vec<Family<Case>> {
-        vec![Family::random("documents", tier.n(10_000, 250_000), fam_docs)]
+        vec![Family::random("documents", tier.n(40_000, 250_000), fam_docs)]
     }
     fn judge(&self, case: &Case, _strict: bool) -> Verdict {
         let cfg = Cfg { border: case.border, scale: case.scale, add_auto_styles: false, ..Cfg::default() };
